@@ -19,6 +19,8 @@ def model_line(op, args, hint):
     if op == 'r1.new':
         px, py, s = args
         return 'g r1.new %d %d %d %d %d %d' % (px, py, s, has, ws, y)
+    if op == 'r1.new_affine':
+        return 'g r1.new_affine %d %d %d %d %d' % (args[0], args[1], has, ws, y)
     return 'g %s %s %d %d %d' % (op, ' '.join(str(a) for a in args), has, ws, y)
 
 def compare(cases, timeout=1800):
